@@ -1175,6 +1175,11 @@ func (m *metadataAPI) ResumePartition(streamName string, id int32, recovered boo
 	if err != nil {
 		return nil, err
 	}
+	// Clear the paused flag on the protobuf (used for snapshotting), otherwise
+	// the partition would be paused again when restored from a snapshot.
+	partition.mu.Lock()
+	partition.Paused = false
+	partition.mu.Unlock()
 	// Update latest pause status change timestamp.
 	partition.pauseTimestamps.update()
 
